@@ -1073,6 +1073,15 @@ def perturbations(r, spec, attr, n_donor=2):
                 del nk[attr]
                 out.append((dict(spec, kw=nk), "default"))
                 break
+    # an absent / None collection against the EMPTY collection of the kind other instances hold there (whether the two
+    # compare equal is not demanded - that equal objects hash alike is)
+    if kw.get(attr) is None:
+        for _try in range(8):
+            dv = GEN[cname](r)["kw"].get(attr)
+            kind = next((k for k in ("d", "l", "set", "ids") if isinstance(dv, dict) and k in dv), None)
+            if kind is not None:
+                out.append((dict(spec, kw=dict(kw, **{attr: {kind: []}})), "local:empty collection instead of None"))
+                break
     return out
 
 
